@@ -173,7 +173,10 @@ func (in *inst) open() error {
 	in.under = u
 	switch in.v.wrap {
 	case "prefix":
-		in.top = dbm.NewPrefixDB(u, in.v.prefix)
+		// the prefix slice has spare capacity, as a prefix built with append or converted from a string usually has:
+		// a PrefixDB (or its batch) that appended keys onto the caller's slice in place would make staged keys share memory
+		pfx := append(make([]byte, 0, len(in.v.prefix)+24), in.v.prefix...)
+		in.top = dbm.NewPrefixDB(u, pfx)
 	case "collecting":
 		in.coll = dbm.NewBatchCollector()
 		in.top = dbm.NewCollectingDB(u, in.coll)
